@@ -80,7 +80,11 @@ func execC09(seg []Ev) []Ev {
 			plans = append(plans, prow)
 		}
 		text := sb.String()
-		e := Ev{"op": "csv", "seps": cpsR(seps), "quotes": cpsR(quotes), "eol": cps(eol), "table": table, "plans": plans, "text": cps(text)}
+		cfg := "set"
+		if c, ok := in["cfg"]; ok {
+			cfg = toStr(c)
+		}
+		e := Ev{"op": "csv", "seps": cpsR(seps), "quotes": cpsR(quotes), "eol": cps(eol), "table": table, "plans": plans, "text": cps(text), "cfg": cfg}
 		var toks []*tokenizers.Token
 		oc, det := guarded(func() {
 			t := csv.NewCsvTokenizer()
@@ -88,7 +92,16 @@ func execC09(seg []Ev) []Ev {
 				// configure quotes / separators in an order that never makes them collide with the defaults
 				t.SetFieldSeparators([]rune{0x1})
 				t.SetQuoteSymbols(quotes)
-				t.SetFieldSeparators(seps)
+				if cfg == "getset" && len(seps) == 1 {
+					// the list handed out by the getter, changed and handed back
+					buf := t.FieldSeparators()
+					buf[0] = seps[0]
+					t.SetFieldSeparators(buf)
+					qb := t.QuoteSymbols()
+					t.SetQuoteSymbols(qb)
+				} else {
+					t.SetFieldSeparators(seps)
+				}
 			}
 			t.SetDecodeStrings(true)
 			toks = t.TokenizeBuffer(text)
@@ -148,7 +161,11 @@ func genC09(g *Gen) {
 			table = append(table, trow)
 			plans = append(plans, prow)
 		}
-		g.Run(gen, []Ev{{"op": "csv", "seps": cpsR(seps), "quotes": cpsR(quotes), "eol": cps(eol), "table": table, "plans": plans}})
+		cfg := "set"
+		if len(seps) == 1 && r.Intn(3) == 0 {
+			cfg = "getset"
+		}
+		g.Run(gen, []Ev{{"op": "csv", "seps": cpsR(seps), "quotes": cpsR(quotes), "eol": cps(eol), "table": table, "plans": plans, "cfg": cfg}})
 	}
 	// (1) exhaustive small scope: all tables of 2 rows x 1..2 columns with fields <= 1 over the significant characters,
 	//     default configuration, every line ending; fields <= 2 for single-field tables
@@ -168,6 +185,55 @@ func genC09(g *Gen) {
 		for _, a := range f2 {
 			for _, b := range f1 {
 				emit("all 2x1 tables, fields<=2, 4 line endings", []rune{',', ';'}, []rune{'"'}, eol, [][][]rune{{a}, {b}}, false)
+			}
+		}
+	}
+	// (1b) a quote character at every offset of a long quoted field; long fields, rows and tables; rare code points; non-Latin data
+	rp := func(c rune, k int) []rune { return []rune(strings.Repeat(string(c), k)) }
+	for pos := 0; pos <= g.Pick(300, 1100); pos++ {
+		for ci, cf := range [][2][]rune{{{','}, {'"'}}, {{';'}, {'\'', '"'}}, {{0x2502}, {0x201C}}} {
+			if ci > 0 && pos%7 != 0 {
+				continue
+			}
+			q := cf[1][0]
+			emit("a quote at every offset of a long field", cf[0], cf[1], "\n", [][][]rune{{append(append(rp('a', pos), q), 'b', 'c'), []rune("x")}}, true)
+			if pos%3 == 0 {
+				emit("a quote at every offset of a long field", cf[0], cf[1], "\r\n", [][][]rune{{[]rune("y"), append(append(rp(0x416, pos), q, q), cf[0][0], '\n')}, {[]rune("z")}}, true)
+			}
+		}
+	}
+	for _, sz := range []int{63, 64, 65, 127, 128, 129, 255, 256, 257, 1000, 1025, 4097} {
+		if sz > g.Pick(260, 5000) {
+			continue
+		}
+		for _, c := range []rune{'a', '"', ',', '\n', ' ', 0x416, 0xFFFE} {
+			emit("long fields", []rune{','}, []rune{'"'}, "\n", [][][]rune{{rp(c, sz), []rune("x")}, {[]rune("y")}}, false)
+			emit("long fields", []rune{';', ','}, []rune{'\'', '"'}, "\r\n", [][][]rune{{[]rune("x"), rp(c, sz)}}, true)
+		}
+		var wide [][]rune
+		var tall [][][]rune
+		for i := 0; i < sz; i++ {
+			wide = append(wide, []rune(fmt.Sprint(i%10)))
+			tall = append(tall, [][]rune{[]rune(fmt.Sprint(i % 7)), {}})
+		}
+		emit("wide and tall tables", []rune{','}, []rune{'"'}, "\n", [][][]rune{wide, wide[:sz/2]}, false)
+		emit("wide and tall tables", []rune{','}, []rune{'"'}, "\r\n", tall, false)
+	}
+	for _, c := range rareRunes {
+		for ci := range sepSets {
+			seps, quotes := sepSets[ci], quoteSets[ci]
+			if c == 0 || c > 0xFFFE || special(seps, quotes, c) { // the statement covers characters up to U+FFFE
+				continue
+			}
+			emit("rare code points in fields", seps, quotes, eols[ci%4], [][][]rune{{{c}, {'a', c}, {c, 'a'}}, {{c, c}, {}, {'"', c}}}, false)
+			emit("rare code points in fields", seps, quotes, eols[(ci+1)%4], [][][]rune{{{0x65e5, 0x672c, c}, {c, 0x8a9e}}}, ci%2 == 0)
+		}
+	}
+	for _, cf := range [][2][]rune{{{0xFF1B}, {'"'}}, {{0x2502}, {0x201C}}, {{0x3001, ','}, {0xAB, '"'}}, {{0x100}, {0x101}}, {{0xFFFE}, {0xFFFD}}, {{0xFF}, {0xFE}}} {
+		for _, data := range [][][]rune{{[]rune("日本"), []rune("語")}, {[]rune("a日"), []rune("本b"), {}}, {[]rune("страна"), []rune("x"), []rune("Жук")}, {{0x100}, {0xFFFD, 0xFF}, {0x101, 0x2502}}} {
+			for _, eol := range eols {
+				emit("non-Latin data x non-Latin separators and quotes", cf[0], cf[1], eol, [][][]rune{data, data[:1]}, false)
+				emit("non-Latin data x non-Latin separators and quotes", cf[0], cf[1], eol, [][][]rune{data}, true)
 			}
 		}
 	}
